@@ -18,7 +18,22 @@ CHECKS = {
     },
 }
 
+CHECKS['C07'] = {
+    'text': 'Every functional with a proximal (class x options x space x sigma, scalar and per-point), '
+            'its convex conjugate, and every derived functional (translation, left/right scaling incl. '
+            'negative and zero argument scaling, quadratic perturbation, scalar sum, Bregman distance, '
+            'separable sum, default Moreau conjugate, unitary composition; depth 2) is run on every x '
+            'of V^n; optimality of p = prox(x) is decided against an independent reference value '
+            'table on a global lattice, 3^n-1 directions at 4 scales and a segment; firm '
+            'non-expansiveness on all pairs; feasibility and idempotence for indicators.',
+    'note': 'small-scope result: V has 5 values straddling the thresholds, n <= 4 (8 for nuclear norms '
+            'on a reduced alphabet); a minimiser is certified up to probe resolution 2^-12 and '
+            'tolerance 1e-9 (1e-6 where odl documents an epsilon shrink); reference values use the '
+            'weights measured from the space (validated by C02)',
+    'technique': 'bounded exhaustive exploration (configuration x program space) against a reference model',
+}
+
 _PENDING = 'check under construction in this session; not claimed until it runs quietly on the unchanged tree'
 NOT_APPLICABLE = dict((p, _PENDING) for p in
-                      ['C01', 'C02', 'C03', 'C04', 'C05', 'C06', 'C07', 'C08', 'C09', 'C11', 'C12',
+                      ['C01', 'C02', 'C03', 'C04', 'C05', 'C06', 'C08', 'C09', 'C11', 'C12',
                        'C13', 'C14', 'C15', 'C16', 'C17', 'C18', 'C19', 'C20'])
